@@ -25,6 +25,7 @@ import (
 	mgmt "github.com/named-data/ndnd/std/ndn/mgmt_2022"
 	spec "github.com/named-data/ndnd/std/ndn/spec_2022"
 	svs "github.com/named-data/ndnd/std/ndn/svs_2024"
+	"github.com/named-data/ndnd/std/security"
 	"github.com/named-data/ndnd/std/utils"
 )
 
@@ -282,7 +283,7 @@ func FaceOf(w int) uint64 { return uint64(w + 1) }
 
 // SyncInterest delivers an Advertisement Sync Interest of router wName, arriving on `face`, to the
 // REAL advertSyncOnInterest of router u (neighbor creation, RecvPing, face change -> fibUpdate).
-func (s *Sim) SyncInterest(u int, wName enc.Name, face uint64, active bool, seq uint64) {
+func (s *Sim) SyncInterest(u int, wName enc.Name, face uint64, active bool, seq uint64) []Pending {
 	nd := s.Nodes[u]
 	sv := &svs.StateVectorAppParam{StateVector: &svs.StateVector{
 		Entries: []*svs.StateVectorEntry{{NodeId: wName, SeqNo: seq}}}}
@@ -304,7 +305,28 @@ func (s *Sim) SyncInterest(u int, wName enc.Name, face uint64, active bool, seq 
 	f := face
 	nd.R.VerifAdvertSyncOnInterest(ndn.InterestHandlerArgs{Interest: interest, IncomingFaceId: &f}, active)
 	s.Settle()
-	nd.Eng.DropPending(IsAdvertFetch) // the advertisement fetch this may have started is answered by the harness itself
+	// the advertisement fetch this may have started (advertDataFetch) is answered by the harness itself
+	return nd.Eng.DropPending(IsAdvertFetch)
+}
+
+// AdvertWire is router w's current advertisement as advertDataOnInterest would encode it.
+func (s *Sim) AdvertWire(w int) []byte { return s.Nodes[w].R.VerifRib().Advert().Encode().Join() }
+
+// ReplyAdvert answers an advertisement fetch of router u with the given content through the REAL
+// Express callback (advertDataHandler: sequence check, ns.Advert = ..., go ribUpdate).
+func (s *Sim) ReplyAdvert(p Pending, content []byte) {
+	sp := spec.Spec{}
+	ed, err := sp.MakeData(p.Name, &ndn.DataConfig{ContentType: utils.IdPtr(ndn.ContentTypeBlob),
+		Freshness: utils.IdPtr(10 * time.Second)}, enc.Wire{content}, security.NewSha256Signer())
+	if err != nil {
+		panic("harness: MakeData: " + err.Error())
+	}
+	data, _, err := sp.ReadData(enc.NewWireReader(ed.Wire))
+	if err != nil {
+		panic("harness: ReadData: " + err.Error())
+	}
+	p.Cb(ndn.ExpressCallbackArgs{Result: ndn.InterestResultData, Data: data, RawData: ed.Wire})
+	s.Settle()
 }
 
 // Ping: a sync Interest of w reaches u on the given face; returns u's neighbor state for w.
